@@ -24,10 +24,62 @@ def chunking_pieces(ctx):
     ctx.emit('staticChunkSizeGranular.body.inc', p, must_fire=['R2', 'R6'])
 
 
+INSTS = [('int8_t', 'uint8_t', 1), ('uint8_t', 'uint8_t', 0), ('int16_t', 'uint16_t', 1), ('uint16_t', 'uint16_t', 0),
+         ('int32_t', 'uint32_t', 1), ('uint32_t', 'uint32_t', 0), ('int64_t', 'uint64_t', 1), ('uint64_t', 'uint64_t', 0)]
+
+
+def inst_defines(t, u, signed):
+    return {'IntegerT': t, 'U': u, 'size_type': 'int64_t' if signed else 'uint64_t', 'IS_SIGNED': str(signed)}
+
+
+MAPPER_MEMBERS = r'(?<![\w.>])(numThreads|chunkSize|smallChunk|transIdx|rangeStart|rangeEnd)\b'
+
+
+def mapper_pieces(ctx):
+    r = ctx.repo
+    pf, ps = 'dispenso/parallel_for.h', 'dispenso/detail/par_for_static.h'
+    # ChunkedRange fields and size()
+    cr = r.function(pf, r'struct\s+ChunkedRange\s*(?=\{)')
+    f = X.slice_between(cr, r'IntegerT\s+start\s*;', r'IntegerT\s+chunk\s*;', include_end=True)
+    ctx.emit('ChunkedRange.fields.inc', f)
+    p = r.function(pf, r'size_type\s+size\s*\(\s*\)\s*const', within=r'struct\s+ChunkedRange\s*(?=\{)')
+    ctx.emit('ChunkedRange_size.body.inc', p, must_fire=['R2', 'R11'],
+             subs=[('R11', r'(?<![\w.>])(start|end)\b', r'self->\1')])
+    # StaticChunkMapper fields and operator()
+    sm = r.function(ps, r'struct\s+StaticChunkMapper\s*(?=\{)')
+    f = X.slice_between(sm, r'size_type\s+numThreads\s*;', r'IntegerT\s+rangeEnd\s*;', include_end=True)
+    ctx.emit('StaticChunkMapper.fields.inc', f)
+    p = r.function(ps, r'std::pair<IntegerT,\s*IntegerT>\s+operator\(\)\s*\(\s*size_type\s+idx\s*\)\s*const')
+    ctx.emit('StaticChunkMapper_call.body.inc', p, must_fire=['R2', 'R10', 'R11'],
+             subs=[('R11', MAPPER_MEMBERS, r'self->\1'),
+                   ('R10', r'return\s*\{\s*start\s*,\s*end\s*\}\s*;', 'return (PairII){start, end};', 1)])
+    # derivation slice of parallel_for_staticImpl
+    impl = r.function(ps, r'void\s+parallel_for_staticImpl\s*\([^)]*\)')
+    sl = X.slice_between(impl, r'auto\s+chunking\s*=', r'StaticChunkMapper<IntegerT>\s+chunkRange\s*\{[^}]*\}\s*;', include_end=True)
+    ctx.emit('psi_derive.slice.inc', sl, must_fire=['R2', 'R9', 'R10', 'R17', 'R16'],
+             subs=[('R9', r'auto\s+chunking\s*=', 'StaticChunking chunking =', 1),
+                   ('R17', r'range\.size\(\)', 'ChunkedRange_size(&range)'),
+                   ('R10', r'StaticChunkMapper<IntegerT>\s+chunkRange\s*\{', 'StaticChunkMapper chunkRange = {', 1)])
+
+
+def foreach_pieces(ctx):
+    r = ctx.repo
+    fe = 'dispenso/for_each.h'
+    fn = r.function(fe, r'void\s+for_each_n\s*\(\s*TaskSetT&\s*tasks\s*,\s*Iter\s+start\s*,\s*size_t\s+n\s*,[^)]*\)')
+    sl = X.slice_between(fn, r'auto\s+chunking\s*=', r'size_t\s+smallChunkSize\s*=[^;]*;', include_end=True)
+    ctx.emit('fe_derive.slice.inc', sl, must_fire=['R9', 'R16'],
+             subs=[('R9', r'auto\s+chunking\s*=', 'StaticChunking chunking =', 1)])
+    sch = r.function(fe, r'void\s+for_each_n_schedule\s*\([^)]*std::random_access_iterator_tag\s*\)')
+    sl = X.slice_between(sch, r'ssize_t\s+sidx\s*=', r'Iter\s+s\s*=\s*start\s*\+\s*offset\s*;')
+    ctx.emit('fe_offset_sched.slice.inc', sl, must_fire=['R2'])
+    sl = X.slice_between(sch, r'ssize_t\s+lastIdx\s*=', r'Iter\s+lastStart\s*=\s*start\s*\+\s*offset\s*;')
+    ctx.emit('fe_offset_tail.slice.inc', sl, must_fire=['R2'])
+
+
 def replay_args(kind):
     def f(ce, u):
-        return [kind] + ['%s=%s' % (k, v) for k, v in sorted(ce.items()) if v is not None]
-    return dict(prog='replay/c17_replay.cpp', args=f)
+        return [kind] + (['T=' + u.inst] if u.inst else []) + ['%s=%s' % (k, v) for k, v in sorted(ce.items()) if v is not None]
+    return dict(prog='replay/c17_replay.cpp', args=f, with_lib=kind in ('derive', 'fe'))
 
 
 def build(ctx):
@@ -37,4 +89,21 @@ def build(ctx):
                       expect=[r'postcondition\.5', r'overflow', r'division-by-zero', r'assertion'], replay=replay_args('scs')))
     units.append(Unit('staticChunkSizeGranular', 'intwp', 'specs/c17_chunking.c', 'staticChunkSizeGranular', timeout=60,
                       expect=[r'postcondition\.6', r'overflow', r'division-by-zero', r'assertion', r'precondition'], replay=replay_args('scsg')))
+    foreach_pieces(ctx)
+    for fn, exp in (('fe_derive', [r'postcondition\.2', r'precondition']), ('fe_offset_sched', [r'postcondition\.3']),
+                    ('fe_offset_tail', [r'postcondition\.3']), ('c17_foreach_partition', [r'assertion\.5', r'precondition\.3'])):
+        units.append(Unit('for_each_n.' + fn, 'intwp', 'specs/c17_foreach.c', fn, timeout=120, expect=exp,
+                          replay=replay_args('fe') if fn == 'fe_derive' else None))
+    mapper_pieces(ctx)
+    insts = INSTS if ctx.tier == 'thorough' else [INSTS[0], INSTS[1], INSTS[4], INSTS[6], INSTS[7]]
+    for t, uu, sg in insts:
+        d = inst_defines(t, uu, sg)
+        common = dict(defines=d, inst=t, timeout=120, signed_wrap=True, nonprop_cls=['overflow', 'conversion'])
+        units.append(Unit('ChunkedRange.size', 'intwp', 'specs/c17_mapper.c', 'ChunkedRange_size', expect=[r'postcondition\.1'], **common))
+        units.append(Unit('StaticChunkMapper.call', 'intwp', 'specs/c17_mapper.c', 'StaticChunkMapper_call',
+                          expect=[r'postcondition\.1', r'postcondition\.2'], replay=replay_args('mapper'), **common))
+        units.append(Unit('c17_mapper_partition', 'intwp', 'specs/c17_mapper.c', 'c17_mapper_partition',
+                          expect=[r'assertion\.5', r'precondition'], **common))
+        units.append(Unit('parallel_for_staticImpl.derive', 'intwp', 'specs/c17_mapper.c', 'psi_derive',
+                          expect=[r'postcondition\.5', r'precondition'], replay=replay_args('derive'), **common))
     return units
